@@ -197,7 +197,15 @@ def check_update(ctx, fn, args, tol_mean, with_ref, source):
         return "value"
     d = dict(zip(A.info()["meta"][fn]["params"], args))
     means = [nat_mean(p) for p in pars]
-    # --- support of the tilted distribution
+    # --- support of the tilted distribution (strict on EP's range; in the "extreme" corners, where the
+    # likelihood pins a node to within 1e-5..1e-9 of a fixed age, the Laplace mean was measured to overshoot
+    # the bound by 6e-8 relative on the unchanged tree: slack 1e-6 there)
+    slack = 1e-6 if source == "extreme" else 0.0
+    d = dict(d)
+    if "t_i" in d:
+        d["t_i"] = d["t_i"] * (1 + slack)
+    if "t_j" in d:
+        d["t_j"] = d["t_j"] * (1 - slack)
     bad = None
     if fn == "rootward_projection" and not means[0] > d["t_j"]:
         bad = "free parent mean %r not above the fixed child %r" % (means[0], d["t_j"])
@@ -286,6 +294,53 @@ def coherent_args(rng, fn):
     return out
 
 
+def extreme_args(rng, fn):
+    """valid situations in the corners of the hypergeometric arguments (shapes >= 1 as in EP):
+    two-node updates with the 2F1 argument within 1e-5..1e-9 of 1 (mutational span, or one cavity rate,
+    1e5..1e9 times the other rates) or at -1e5..-1e9, shapes up to 1.5e5; one-node updates with the argument of
+    U / 1F1 at 1e-8 or 1e+8 times its usual size"""
+    d = A.gen_edge(rng, min_shape=1.0, coherent_mu=True)
+    f = A.lu(rng, 1e5, 1e9)
+    if rng.random() < 0.2:
+        d["a_i"] *= A.lu(rng, 1.0, 30.0)
+        d["a_j"] *= A.lu(rng, 1.0, 30.0)
+    two = fn in ("gamma_projection", "mutation_gamma_projection", "unphased_projection", "mutation_unphased_projection")
+    if two:
+        k = rng.choice(["mu", "b_i", "b_j"])
+        if k == "mu":
+            d["mu_ij"] = f * (d["b_i"] + d["b_j"])
+        elif k == "b_i":
+            d["b_i"] = f * (d["mu_ij"] + d["b_j"])
+        else:
+            d["b_j"] = f * (d["mu_ij"] + d["b_i"])
+    else:
+        g = rng.choice([f, 1.0 / f])
+        k = rng.choice(["t", "mu", "b"])
+        if k == "t":
+            d["t_i"] *= g
+            d["t_j"] *= g
+        elif k == "mu":
+            d["mu_ij"] *= g
+        else:
+            d["b_i"] *= g
+            d["b_j"] *= g
+    out = []
+    for p in A.info()["meta"][fn]["params"]:
+        if p in ("pars_i", "pars_j"):
+            out.append((d["a_" + p[-1]] - 1.0, d["b_" + p[-1]]))
+        elif p == "pars_ij":
+            out.append((d["y_ij"], d["mu_ij"]))
+        else:
+            out.append(d[p])
+    return out
+
+
+# the two-node updates only: measured max relative error of the mean on the unchanged tree in these corners 1.1e-3.
+# The one-node updates are NOT accurate in their corners (e.g. leafward with mu * t_i ~ 1e10: the child is pinned just
+# below the parent and the Laplace mean is 42 % off, shape 0.5), so no accuracy is claimed or checked there.
+EXTREME = ["gamma_projection", "mutation_gamma_projection", "unphased_projection", "mutation_unphased_projection"]
+
+
 def oracle(ctx, rec, n_rec, n_ref_rec, n_gen, n_ref_gen):
     """rec: recorded tuples; per wrapper: n_rec recorded cases (n_ref_rec of them integrated),
     n_gen perturbed + n_gen coherent cases (n_ref_gen of each integrated)"""
@@ -306,6 +361,12 @@ def oracle(ctx, rec, n_rec, n_ref_rec, n_gen, n_ref_gen):
             res = check_update(ctx, fn, args, TOL_MEAN_GEN, k < n_ref_gen, "coherent")
             ctx.case({"fn": fn, "args": A.jsonable(args), "source": "coherent", "result": res},
                      nontrivial=res == "value", kind="oracle/%s/%s" % (fn, res))
+        if fn in EXTREME:
+            for k in range(n_gen):
+                args = extreme_args(ctx.rng, fn)
+                res = check_update(ctx, fn, args, TOL_MEAN_GEN, k < n_ref_gen + 2, "extreme")
+                ctx.case({"fn": fn, "args": A.jsonable(args), "source": "extreme", "result": res},
+                         nontrivial=res == "value", kind="oracle/%s/%s" % (fn, res))
         # wild arguments: only the unconditional clauses (skip, or a proper gamma and a phase in [0,1])
         for _ in range(n_gen):
             args = A.gen_args(ctx.rng, fn)
@@ -316,17 +377,17 @@ def oracle(ctx, rec, n_rec, n_ref_rec, n_gen, n_ref_gen):
 
 def run(ctx, model_ok=True):
     with A.phase(ctx, "record_ep"):
-        rec, runs = A.record_ep(ctx.rng, ctx.n(20, 150))
+        rec, runs = A.record_ep(ctx.rng, ctx.n(10, 150))
     ctx.notes["ep_runs_recorded"] = runs
     ctx.notes["recorded_calls"] = {k: len(v) for k, v in rec.items()}
     if model_ok:
         extra = {}
         for fn in A.WRAPPERS:
-            extra[fn] = list(rec.get(fn, []))[: ctx.n(6, 60)]
+            extra[fn] = list(rec.get(fn, []))[: ctx.n(4, 60)]
         with A.phase(ctx, "float_correspondence"):
-            A.correspondence(ctx, group(), ctx.n(15, 150), extra=extra)
+            A.correspondence(ctx, group(), ctx.n(10, 150), extra=extra)
     with A.phase(ctx, "oracle"):
-        oracle(ctx, rec, ctx.n(30, 300), ctx.n(3, 40), ctx.n(8, 80), ctx.n(2, 25))
+        oracle(ctx, rec, ctx.n(30, 300), ctx.n(2, 40), ctx.n(8, 80), ctx.n(1, 25))
     if ctx.tier == "thorough":
         with A.phase(ctx, "jit_check"):
             A.jit_check(ctx, group(), 200)
